@@ -437,6 +437,9 @@ pub struct KnownFinding {
     pub status: String,
     pub sub: String,
     pub reproducer: Value,
+    /// the construct is excluded from the random search by construction, so the entry
+    /// suppresses only its own reproducer; the same signature anywhere else is a violation
+    pub only_reproducer: bool,
 }
 
 pub fn load_known_findings() -> Vec<KnownFinding> {
@@ -454,6 +457,7 @@ pub fn load_known_findings() -> Vec<KnownFinding> {
             status: e["status"].as_str().unwrap_or("open").to_string(),
             sub: e["sub"].as_str().unwrap_or("").to_string(),
             reproducer: e["reproducer"].clone(),
+            only_reproducer: e["only_reproducer"].as_bool().unwrap_or(false),
         });
     }
     out
@@ -482,6 +486,7 @@ pub struct Ctx {
     pub assumptions: Vec<String>,
     pub extra: BTreeMap<String, Value>,
     pub sub_stats: BTreeMap<String, Value>,
+    pub in_reproducers: bool,
 }
 
 pub fn env_seed() -> u64 {
@@ -515,6 +520,7 @@ impl Ctx {
             assumptions: vec![],
             extra: BTreeMap::new(),
             sub_stats: BTreeMap::new(),
+            in_reproducers: false,
         }
     }
 
@@ -537,7 +543,7 @@ impl Ctx {
             return None;
         }
         self.known.iter().find(|k| {
-            k.property == self.property && k.status == "open" && key_matches(&k.key, key)
+            k.property == self.property && k.status == "open" && key_matches(&k.key, key) && (!k.only_reproducer || self.in_reproducers)
         })
     }
 
@@ -636,6 +642,7 @@ impl Ctx {
     /// proptest-driven random search over choice sequences, evaluated in
     /// parallel batches; first new failure is shrunk (bounded) and reported.
     pub fn run_search<P: Prop>(&mut self, prop: &P, cases: usize, max_choices: usize, shrink_budget: usize) {
+        let shrink_budget = std::env::var("VERIF_SHRINK").ok().and_then(|s| s.parse().ok()).unwrap_or(shrink_budget);
         let sub = prop.name().to_string();
         let t0 = Instant::now();
         let mut seed_bytes = [0u8; 32];
@@ -658,9 +665,9 @@ impl Ctx {
             let n = batch.min(cases - done);
             let mut trees = Vec::with_capacity(n);
             for _ in 0..n {
-                trees.push(strategy.new_tree(&mut runner).expect("new_tree"));
+                trees.push(Some(strategy.new_tree(&mut runner).expect("new_tree")));
             }
-            let seqs: Vec<Vec<u32>> = trees.iter().map(|t| t.current()).collect();
+            let seqs: Vec<Vec<u32>> = trees.iter().map(|t| t.as_ref().unwrap().current()).collect();
             let results: Vec<(Outcome, Option<Value>)> = seqs
                 .par_iter()
                 .map(|s| {
@@ -692,7 +699,7 @@ impl Ctx {
                         continue;
                     }
                     // shrink this tree sequentially
-                    let mut tree = trees.swap_remove(i);
+                    let mut tree = trees[i].take().unwrap();
                     let key = f.key.clone();
                     let mut best = (seqs[i].clone(), f.clone());
                     let mut steps = 0usize;
@@ -747,8 +754,8 @@ impl Ctx {
                     // counting stops at first new failure (developer triage mode keeps going)
                     if std::env::var("VERIF_CONTINUE").is_err() {
                         stopped = true;
+                        break;
                     }
-                    break;
                 }
             }
             done += n;
@@ -758,6 +765,71 @@ impl Ctx {
             json!({"mode":"proptest choice sequences","cases_requested":cases,"cases_run":done,"max_choices":max_choices,
                    "stopped_at_failure":stopped,"shrink_steps":shrunk_steps,"wall_s":t0.elapsed().as_secs_f64()}),
         );
+    }
+
+    /// Developer aid: minimise a stored failing choice sequence by chunk deletion / zeroing
+    /// (keeps the failure key), then apply the case-level minimiser. Prints the result.
+    pub fn minimize_stored<P: Prop>(&mut self, prop: &P, doc: &Value, budget: usize) -> i32 {
+        self.strict = true;
+        let Some(arr) = doc["case"].get("choices").and_then(|c| c.as_array()) else {
+            println!("no choices in replay file");
+            return 2;
+        };
+        let mut seq: Vec<u32> = arr.iter().map(|x| x.as_u64().unwrap_or(0) as u32).collect();
+        let key_of = |s: &[u32]| -> Option<String> { guarded(|| prop.generate(&mut Choices::new(s))).ok().map(|c| eval_guarded(prop, &c)).and_then(|o| o.fail).map(|f| f.key) };
+        let Some(key) = key_of(&seq) else {
+            println!("stored case does not fail any more");
+            return 0;
+        };
+        println!("minimising for key {key} ({} choices)", seq.len());
+        let mut evals = 0usize;
+        let mut chunk = (seq.len() / 2).max(1);
+        while chunk >= 1 && evals < budget {
+            let mut i = 0;
+            let mut progressed = false;
+            while i < seq.len() && evals < budget {
+                let end = (i + chunk).min(seq.len());
+                // try deletion
+                let mut cand: Vec<u32> = seq[..i].iter().chain(seq[end..].iter()).copied().collect();
+                evals += 1;
+                if key_of(&cand).as_deref() == Some(key.as_str()) {
+                    seq = cand;
+                    progressed = true;
+                    continue;
+                }
+                // try zeroing
+                if seq[i..end].iter().any(|&x| x != 0) {
+                    cand = seq.clone();
+                    for x in &mut cand[i..end] {
+                        *x = 0;
+                    }
+                    evals += 1;
+                    if key_of(&cand).as_deref() == Some(key.as_str()) {
+                        seq = cand;
+                        progressed = true;
+                    }
+                }
+                i = end;
+            }
+            if chunk == 1 && !progressed {
+                break;
+            }
+            if !progressed || chunk > 1 {
+                chunk /= 2;
+            }
+            if chunk == 0 {
+                break;
+            }
+        }
+        let case = prop.generate(&mut Choices::new(&seq));
+        let o = eval_guarded(prop, &case);
+        let rendered = prop.render(&case);
+        println!("minimised to {} choices after {} evaluations", seq.len(), evals);
+        if let Some(f) = o.fail {
+            let path = self.record_violation(prop.name(), &f.key, &f.msg, json!({"choices": seq, "rendered": rendered, "minimized": true}));
+            println!("written {}", path.display());
+        }
+        1
     }
 
     /// Replay one stored case in strict mode. Returns exit code.
@@ -837,6 +909,7 @@ impl Ctx {
             .collect();
         let cases: Vec<(KnownFinding, P::Case)> = mine.into_iter().filter_map(|k| prop.from_rendered(&k.reproducer).map(|c| (k, c))).collect();
         let outcomes: Vec<Outcome> = cases.par_iter().map(|(_, c)| eval_guarded(prop, c)).collect();
+        self.in_reproducers = true;
         for ((k, case), o) in cases.iter().zip(outcomes.iter()) {
             self.absorb(prop.name(), o, || prop.render(case));
             *self.classes.entry(format!("{}/known-finding-reproducers", prop.name())).or_insert(0) += 1;
@@ -849,6 +922,7 @@ impl Ctx {
                 }
             }
         }
+        self.in_reproducers = false;
     }
 
     pub fn note_excluded(&mut self, what: &str, n: u64) {
@@ -1044,12 +1118,18 @@ pub enum Mode {
     Run(String),
     Replay(PathBuf, Value),
     Worker(String),
+    Minimize(PathBuf, Value),
 }
 
 pub fn parse_mode_from(args: &[String]) -> Mode {
     match args.get(0).map(|s| s.as_str()) {
         Some("quick") => Mode::Run("quick".into()),
         Some("thorough") => Mode::Run("thorough".into()),
+        Some("--minimize") => {
+            let p = PathBuf::from(args.get(1).expect("--minimize <file>"));
+            let s = std::fs::read_to_string(&p).expect("read replay file");
+            Mode::Minimize(p, serde_json::from_str(&s).expect("replay JSON"))
+        }
         Some("--worker") => Mode::Worker(args.get(1).cloned().unwrap_or_default()),
         Some("--replay") => {
             let p = PathBuf::from(args.get(1).expect("--replay <file>"));
